@@ -43,16 +43,24 @@ def cases(tier, seed):
         d = gen.random_mesh(rng, 40 if tier == "quick" else 120, families=gen.ALL_FAMILIES)
         if i % 3 == 0 and d["family"] not in ("latlon_patch", "latlon_global"):
             d["ops"] = [o for o in d.get("ops", []) if o[0] not in ("rot", "snap")] + [["snap", [["face_am", "node_am"][i % 2], int(rng.integers(0, 1000))]]]
-        L = int(rng.integers(2, 7))
+        L = int(rng.integers(2, 8))
         hist = []
-        for _ in range(L):
-            kind = KINDS[int(rng.integers(0, len(KINDS)))]
+
+        def argset():
             pe = ["exclude", "split", "ignore"][int(rng.integers(0, 3))]
             proj = PROJ[int(rng.integers(0, len(PROJ)))]
             if pe == "split":
                 proj = "none"
-            hist.append({"kind": kind, "periodic_elements": pe, "projection": proj, "engine": ["spatialpandas", "geopandas"][int(rng.integers(0, 2))],
-                         "cache": bool(rng.random() < 0.8), "override": bool(rng.random() < 0.2), "var": int(rng.integers(0, 2))})
+            return {"periodic_elements": pe, "projection": proj, "engine": ["spatialpandas", "geopandas"][int(rng.integers(0, 2))]}
+
+        # conversions come back to the same few argument sets (a script plots the grid, then two variables, with the same options;
+        # then switches options and back): caches keyed by arguments are hit, refreshed and bypassed in every order
+        pool = [argset(), argset()]
+        sticky = bool(i % 2)
+        for _ in range(L):
+            kind = KINDS[int(rng.integers(0, len(KINDS)))]
+            a = dict(pool[int(rng.integers(0, 2))]) if (sticky and rng.random() < 0.85) else argset()
+            hist.append(dict(a, kind=kind, cache=bool(rng.random() < (0.6 if sticky else 0.8)), override=bool(rng.random() < 0.2), var=int(rng.integers(0, 2))))
         yield {"mesh": d, "history": hist, "seed": int(rng.integers(0, 10**6))}
 
 
@@ -344,6 +352,11 @@ def run_case(ctx, case):
     U = ux.ux()
     m = gen.build(case["mesh"])
     if m.n_face > 400:
+        return
+    # plotting geometry is single precision by design (7.6e-6 degrees at lon 128): meshes with edges below ~1e-3 degrees cannot be
+    # told from degenerate ones at the comparison tolerance (2e-5 degrees) - not judged here
+    if min(float(ref.angle(m.xyz[a], m.xyz[b])) for f in m.faces for a, b in zip(f, f[1:] + f[:1])) < 2e-5:
+        ctx.observe("skipped_edges_below_single_precision_resolution")
         return
     g = ux.grid_from_mesh(m)
     data = [U.UxDataArray(np.arange(m.n_face, dtype=float), dims=["n_face"], uxgrid=g, name="ids"),
